@@ -141,6 +141,13 @@ func RunHistory(cfg Config, seed int64, dir string) (res *Result) {
 		}
 		w.Close()
 	}()
+	if (cfg.Faults || cfg.C08) && r.Intn(4) == 0 {
+		if err := w.PreSync(int32(9998 + r.Intn(6))); err != nil {
+			res.Diff = df("harness:presync", "%v", err)
+			return res
+		}
+		res.Stats["histories-starting-near-or-above-height-10000"]++
+	}
 	x := &run{cfg: cfg, w: w, st: res.Stats, res: res, sc: sc}
 	if sc != nil {
 		w.DB.Trace = sc.Trace(func(d *Diff) {
